@@ -146,7 +146,7 @@ def run_case(case):
             worst = max(worst, abs(ref_p - ref) / (abs(ref) + 1e-8))
         obs["conditioning_measured"] = 1
         obs["max_measured_sensitivity"] = worst
-        tol = tol + 20 * worst
+        tol = tol + util.COND_FACTOR * worst
     if not err <= tol:
         viols.append(util.viol("timeseries_loss", f"loss_lml_timeseries={got!r} but the log-density of the data under the joint smoothing posterior plus noise is {ref!r} (rel {err:.3g})",
                                tags=tags, witness={"times": times, "std": std, "T": T}))
